@@ -109,7 +109,12 @@ impl ErrorHandler for Handler {
         let k = if t == ErrorType::Error { "E" } else { "W" };
         // only the class of message is compared (wording is not part of any property)
         let class = msg_class(message);
-        self.log.borrow_mut().push(format!("h({},{})", k, class));
+        // "RUNTIME WARNING: (<path>): <text>" — keep the path: it identifies the raising site
+        let site = message
+            .find(": (")
+            .and_then(|i| message[i + 3..].find("): ").map(|j| message[i + 3..i + 3 + j].to_owned()))
+            .unwrap_or_default();
+        self.log.borrow_mut().push(format!("h({},{}@{})", k, class, site));
     }
 }
 
